@@ -253,6 +253,8 @@ def _array_len(e, body, facts):
         x = x[1]
     if x[0] == 'agg' and x[1] == 'array':
         return len(x[2])
+    if x[0] == 'call' and x[1] in ('std::slice::from_ref', 'core::slice::from_ref'):
+        return 1          # a one-element slice of its argument
     if x[0] == 'promoted':
         ty = x[3] or ''
         import re
